@@ -147,6 +147,20 @@ def cflt(x, model=None):
         return {'f': '%016x' % bv}
     return {'f': 'sym'}
 
+def ckey(j):
+    """the one sort key used for unordered components everywhere (interpreter values, oracle payloads, specs)"""
+    return json.dumps(j, sort_keys=True)
+
+def resort(j):
+    """re-sort the element lists of set-like term nodes in any canonical tree with ckey"""
+    if isinstance(j, list):
+        j = [resort(x) for x in j]
+        if len(j) == 2 and isinstance(j[0], str) and j[0] in TERM_SETS and isinstance(j[1], list):
+            return [j[0], sorted(j[1], key=ckey)]
+        return j
+    if isinstance(j, dict): return {k: resort(v) for k, v in j.items()}
+    return j
+
 def canon_term(v, model=None):
     v = unbox(v)
     k = v.variant
@@ -155,7 +169,7 @@ def canon_term(v, model=None):
     if k == 'Interval': return [k, cnum(v.f[0], model)]
     if k in TERM_SETS:
         items = [canon_term(x, model) for x in v.f[0].items]
-        return [k, sorted(items, key=lambda j: json.dumps(j, sort_keys=True))]
+        return [k, sorted(items, key=ckey)]
     if k in TERM_VECS: return [k, [canon_term(x, model) for x in v.f[0].items]]
     if k in TERM_IMAGES: return [k, cnum(v.f[0], model), [canon_term(x, model) for x in v.f[1].items]]
     if k == 'Negation': return [k, canon_term(v.f[0], model)]
